@@ -13,7 +13,7 @@ assert not [l for l in subprocess.run(["git", "-C", "/repo", "status", "--short"
 m = json.load(open("seeded/MATRIX.json"))
 for arg in sys.argv[1:]:
     prop = arg.split("-")[0]
-    for d in sorted(glob.glob(f"seeded/{arg}" if "-" in arg else f"seeded/{prop}-[ABCDEF]")):
+    for d in sorted(glob.glob(f"seeded/{arg}" if "-" in arg else f"seeded/{prop}-[ABCDEFG]")):
         sid = os.path.basename(d)
         patch = os.path.abspath(os.path.join(d, "patch.diff"))
         status = json.load(open(os.path.join(d, "meta.json"))).get("status", "")[:11]
